@@ -318,7 +318,7 @@ func c08Rewrite(c *Ctx) {
 		}
 	}()
 
-	c.Cases("req", c.N(500, 15000), func(i int, r *rand.Rand) {
+	c.Cases("req", c.N(2500, 60000), func(i int, r *rand.Rand) {
 		k := proxyKey{tls: r.IntN(4) == 0, passHost: r.IntN(2) == 0, net: "tcp4"}
 		if backs["tcp6"] != nil && r.IntN(4) == 0 {
 			k.net = "tcp6"
@@ -590,7 +590,7 @@ func c08Rewrite(c *Ctx) {
 	})
 
 	// zoned IPv6 peers: synthetic RemoteAddr on a direct ServeHTTP call, real backend
-	c.Cases("zoned", c.N(40, 600), func(i int, r *rand.Rand) {
+	c.Cases("zoned", c.N(100, 2000), func(i int, r *rand.Rand) {
 		back := backs["tcp4"]
 		zone := genZone(r)
 		ip := "fe80::" + fmt.Sprintf("%x", 1+r.IntN(65000))
